@@ -52,7 +52,9 @@ impl Obs {
         ids.len() != self.nodes.len()
     }
     fn leader_known(&self) -> bool {
-        self.roles.iter().any(|r| *r == Some(0))
+        // the leader must be a node of the current configuration: the role record of a node
+        // that has since been removed does not make a leader known
+        self.roles.iter().enumerate().any(|(i, r)| *r == Some(0) && self.nodes.iter().any(|n| n.0 == i as u64 + 1))
     }
     fn rename(&self, p: &[usize]) -> Obs {
         // id i (1-based) becomes p[i-1]+1
@@ -445,7 +447,7 @@ fn main() {
             }
         }
         ctx.cov("phase3_constructor", json!({"entry_sequences_x2_paths(add_node, direct nodes.push)": c_evals, "max_len": n_max, "managers_built": c_built, "subset_evaluations": c_sub, "healthy_pairs_intersected": c_pairs}));
-        ctx.assume("distinct voters = ids with at least one voter entry in the manager's own get_config(); active set = get_active_nodes(); leader known = some get_node_metadata(id).role == Leader");
+        ctx.assume("distinct voters = ids with at least one voter entry in the manager's own get_config(); active set = get_active_nodes(); leader known = some id listed in get_config() has get_node_metadata(id).role == Leader (the role record of a removed node does not count)");
         ctx.assume("only the stated direction is demanded (healthy => leader known and strict majority of distinct voters active); the reported counters are not judged");
         ctx.assume("NOT claimed: the all-sizes lemma that any two strict majorities of a finite set intersect (a proof obligation outside this technique); the check establishes the premise on the real code for <= 5 ids and intersects all pairs of healthy active sets directly for every configuration reached");
         ctx.note("dedup key = the manager's full observable state relevant to health (config entries as a multiset, active set, role per id); address strings, heartbeat timestamps and the reachable flag cannot influence health_status and are dropped");
